@@ -103,3 +103,29 @@ package account
 //@   ensures result1 == nil ==> balAt(acc.db.kvhas, acc.db.kvval, ekey(eprefix(ref(acc)), execaddr, to)) == balAt(old(acc.db.kvhas), old(acc.db.kvval), ekey(eprefix(ref(acc)), execaddr, to)) + amount
 //@   ensures result1 == nil ==> balAt(acc.db.kvhas, acc.db.kvval, ekey(eprefix(ref(acc)), execaddr, from)) >= 0
 //@   ensures result1 == nil ==> forall k Bytes :: k != ekey(eprefix(ref(acc)), execaddr, from) && k != ekey(eprefix(ref(acc)), execaddr, to) ==> acc.db.kvhas[k] == old(acc.db.kvhas[k]) && acc.db.kvval[k] == old(acc.db.kvval[k])
+
+// freezing / activating moves value between the two fields of one record: the sum is conserved, neither
+// goes negative, no other record changes, an error changes nothing
+//@ func (*DB).ExecFrozen [C15]
+//@   requires bytes(acc.execAccountKeyPerfix) == eprefix(ref(acc))
+//@   requires ledgerOK(acc.db.kvhas, acc.db.kvval, eprefix(ref(acc)))
+//@   opt overflow=assumed panics=allowed
+//@   requires acc.db != nil
+//@   frame allocates, *.kvhas, *.kvval
+//@   ensures result1 != nil ==> acc.db.kvhas == old(acc.db.kvhas) && acc.db.kvval == old(acc.db.kvval)
+//@   ensures result1 == nil ==> balAt(acc.db.kvhas, acc.db.kvval, ekey(eprefix(ref(acc)), execaddr, addr)) == balAt(old(acc.db.kvhas), old(acc.db.kvval), ekey(eprefix(ref(acc)), execaddr, addr)) - amount
+//@   ensures result1 == nil ==> froAt(acc.db.kvhas, acc.db.kvval, ekey(eprefix(ref(acc)), execaddr, addr)) == froAt(old(acc.db.kvhas), old(acc.db.kvval), ekey(eprefix(ref(acc)), execaddr, addr)) + amount
+//@   ensures result1 == nil ==> amount > 0 && balAt(acc.db.kvhas, acc.db.kvval, ekey(eprefix(ref(acc)), execaddr, addr)) >= 0
+//@   ensures result1 == nil ==> forall k Bytes :: k != ekey(eprefix(ref(acc)), execaddr, addr) ==> acc.db.kvhas[k] == old(acc.db.kvhas[k]) && acc.db.kvval[k] == old(acc.db.kvval[k])
+
+//@ func (*DB).ExecActive [C15]
+//@   requires bytes(acc.execAccountKeyPerfix) == eprefix(ref(acc))
+//@   requires ledgerOK(acc.db.kvhas, acc.db.kvval, eprefix(ref(acc)))
+//@   opt overflow=assumed panics=allowed
+//@   requires acc.db != nil
+//@   frame allocates, *.kvhas, *.kvval
+//@   ensures result1 != nil ==> acc.db.kvhas == old(acc.db.kvhas) && acc.db.kvval == old(acc.db.kvval)
+//@   ensures result1 == nil ==> balAt(acc.db.kvhas, acc.db.kvval, ekey(eprefix(ref(acc)), execaddr, addr)) == balAt(old(acc.db.kvhas), old(acc.db.kvval), ekey(eprefix(ref(acc)), execaddr, addr)) + amount
+//@   ensures result1 == nil ==> froAt(acc.db.kvhas, acc.db.kvval, ekey(eprefix(ref(acc)), execaddr, addr)) == froAt(old(acc.db.kvhas), old(acc.db.kvval), ekey(eprefix(ref(acc)), execaddr, addr)) - amount
+//@   ensures result1 == nil ==> amount > 0 && froAt(acc.db.kvhas, acc.db.kvval, ekey(eprefix(ref(acc)), execaddr, addr)) >= 0
+//@   ensures result1 == nil ==> forall k Bytes :: k != ekey(eprefix(ref(acc)), execaddr, addr) ==> acc.db.kvhas[k] == old(acc.db.kvhas[k]) && acc.db.kvval[k] == old(acc.db.kvval[k])
